@@ -164,7 +164,7 @@ Section PermSums.
     apply Hs; assumption.
   Qed.
 
-  Lemma msym_pact n p q M : is_bij n p q -> msym n M -> msym n (pact q M).
+  Lemma msym_pact n p q (M : mat F) : is_bij n p q -> msym n M -> msym n (pact q M).
   Proof.
     intros (_ & Hq & _) Hs i j Hi Hj. unfold pact. apply Hs; apply Hq; assumption.
   Qed.
@@ -179,7 +179,7 @@ Section PermSums.
     reflexivity.
   Qed.
 
-  Theorem kernel_matrix_perm n p q kern :
+  Theorem kernel_matrix_perm n p q (kern : mat F) :
     is_bij n p q -> msym n kern ->
     meq n n (kernel_matrix (pact q kern)) (pact q (kernel_matrix kern)).
   Proof.
@@ -291,7 +291,7 @@ Section PermSums.
     rewrite !Hqp by assumption. reflexivity.
   Qed.
 
-  Theorem local_gram_perm n p q K nb i j :
+  Theorem local_gram_perm n p q (K : mat F) nb i j :
     is_bij n p q -> nb i < n -> nb j < n ->
     local_gram (pact q K) (fun t => p (nb t)) i j = local_gram K nb i j.
   Proof.
@@ -422,7 +422,7 @@ Section PermSums.
     unfold heat. rewrite (Hs j i) by assumption. reflexivity.
   Qed.
 
-  Lemma colsum_meq n A B j : meq n n A B -> j < n -> colsum n A j = colsum n B j.
+  Lemma colsum_meq n (A B : mat F) j : meq n n A B -> j < n -> colsum n A j = colsum n B j.
   Proof. intros H Hj. unfold colsum. apply sumn_ext. intros i Hi. apply H; assumption. Qed.
 
   Theorem diffusion_matrix_perm n p q fexp fsqrt w dist :
